@@ -5,7 +5,8 @@
    arbitrary Ops.  Method: the interpolation and the degeneracy test (tied separately:
    mcInterpolate_eq, Triangle3_Degenerate_eq) are abstracted as variables on both sides; the eight
    comparisons v[i] < x are split, and in each of the 256 configurations both sides are computed
-   (vm_compute: loops, tables, index arithmetic) and compared.  Separate file: ~1 minute. *)
+   (vm_compute: loops, tables, index arithmetic) and compared; the triangle loop is first turned
+   into the filter the model uses (RgLib.zfor_collect). *)
 From Coq Require Import ZArith NArith List Bool Lia.
 From Sdfx Require Import Num.Ops Geo.Vec Generated.MarchTables Render.MC Render.Interp Render.Octree
   Render.RgLib Generated.RenderExpr Render.GenEqRender.
@@ -44,8 +45,9 @@ Section GenEqMC.
 
   Ltac mc_case D :=
     vm_compute;
-    repeat match goal with |- context [D ?t ?tol] => destruct (D t tol) end;
-    first [ reflexivity | fail 1 "TRANSL_render_mcToTriangles: the generated mcToTriangles differs from the model on a configuration" ].
+    first [ reflexivity
+          | repeat match goal with |- context [D ?t ?tol] => destruct (D t tol) end; reflexivity
+          | fail 1 "TRANSL_render_mcToTriangles: the generated mcToTriangles differs from the model on a configuration" ].
 
   Lemma mcToTriangles_eq : forall (p0 p1 p2 p3 p4 p5 p6 p7 : V3) (v0 v1 v2 v3 v4 v5 v6 v7 x : T),
       rg_render_mcToTriangles [p0; p1; p2; p3; p4; p5; p6; p7] [v0; v1; v2; v3; v4; v5; v6; v7] x =
@@ -60,6 +62,10 @@ Section GenEqMC.
     { subst idx. cbv -[oltb o0].
       destruct (oltb O v0 x), (oltb O v1 x), (oltb O v2 x), (oltb O v3 x), (oltb O v4 x), (oltb O v5 x), (oltb O v6 x), (oltb O v7 x); reflexivity. }
     clearbody idx. subst idx.
+    (* the triangle loop collects the non-degenerate triangles: a filter *)
+    cbv zeta.
+    (* (when the loop is written differently the configurations are still compared, more slowly) *)
+    try (erewrite (zfor_collect _ _ _ (fun t => negb (D t (o0 O)))) by (intros; reflexivity)).
     destruct (oltb O v0 x), (oltb O v1 x), (oltb O v2 x), (oltb O v3 x).
     all: destruct (oltb O v4 x), (oltb O v5 x), (oltb O v6 x), (oltb O v7 x).
     all: mc_case D.
